@@ -44,11 +44,16 @@ def main():
             # shared basis ...) is legitimate use: an exception RAISED INSIDE gbasis on such a call is an observation about the
             # library, not a harness failure. Anything raised by harness code itself stays a harness error (inconclusive).
             tb = exc.__traceback__
-            last = None
+            inside = False
+            lib = os.path.realpath(os.path.join(env.REPO, "gbasis")) + os.sep
+            own = os.path.realpath(env.VERIF) + os.sep
             while tb is not None:
-                last = tb.tb_frame.f_code.co_filename
+                fn_ = os.path.realpath(tb.tb_frame.f_code.co_filename)
+                if fn_.startswith(lib):
+                    inside = True  # the exception came up through library code ...
+                elif fn_.startswith(own) and os.sep + ".deps" + os.sep not in fn_:
+                    inside = False  # ... unless harness code was entered again below it (callbacks)
                 tb = tb.tb_next
-            inside = bool(last) and os.path.realpath(last).startswith(os.path.realpath(os.path.join(env.REPO, "gbasis")) + os.sep)
             if inside:
                 r = {"evals": 1, "nontrivial": True, "classes": case.get("classes", []), "errs": {},
                      "violations": [{"what": "a legitimate call made by the harness raised inside the library: %s: %s  [%s]" % (
